@@ -36,8 +36,21 @@ def run(ctx):
                         and not (isinstance(recv, ast.Attribute) and recv.attr == "kms"):
                     sites.append((f, n))
     impl_funcs = {ctx.fq(repo.lookup_method(i, "encrypt")) for i in kms_impls(ctx)}
+    from sa.absint import _known_functions
+    known = _known_functions()
+    cg0 = CallGraph(repo)
+
+    def inside_impl(f, depth=0):
+        """f is a KMS implementation's encrypt(), or a helper the rules have never seen that is called only from such functions (its
+        statements are evaluated as part of them)"""
+        if ctx.fq(f) in impl_funcs:
+            return True
+        if known is None or f.fq in known or depth >= 3:
+            return False
+        callers = [g for g in repo.all_functions() if g is not f and any(t is f for t in cg0.callees(g))]
+        return bool(callers) and all(inside_impl(g, depth + 1) for g in callers)
     for f, n in sites:
-        R.check("C14-D0 encryption sites", ctx.fq(f) in impl_funcs, f"{ctx.fq(f)}: {ast.unparse(n)[:60]}", mod=f.module, node=n,
+        R.check("C14-D0 encryption sites", inside_impl(f), f"{ctx.fq(f)}: {ast.unparse(n)[:60]}", mod=f.module, node=n,
                 function=ctx.fq(f), expected="AEAD encryption only inside a KMS implementation's encrypt()",
                 found="AEAD encryption outside the analysed KMS interface")
     if not sites:
@@ -56,6 +69,16 @@ def run(ctx):
         lo, hi = fi.node.body[0].lineno, fi.node.end_lineno
         ok = isinstance(nonce, App) and nonce.op in APPROVED
         inside = ok and isinstance(nonce.args[1], Const) and lo <= nonce.args[1].v[1] <= hi
+        if ok and not inside and isinstance(nonce.args[1], Const):
+            # the draw is written in a helper that is evaluated as part of this call: still inside the activation as long as the call
+            # expression sits in a function body (not in a default argument, a decorator, a class body or at module level)
+            ln_, col_ = nonce.args[1].v[1], nonce.args[1].v[2]
+            for g_ in repo.all_functions():
+                for st_ in g_.node.body:
+                    for c_ in ast.walk(st_):
+                        if isinstance(c_, ast.Call) and getattr(c_, "lineno", None) == ln_ and getattr(c_, "col_offset", None) == col_ \
+                                and ast.unparse(c_.func).split(".")[-1] == "urandom" and g_.module is fi.module:
+                            inside = True
         R.check("C14-D1 nonce provenance", ok, f"{impl.name}.encrypt: nonce source", mod=fi.module, node=a.node, function=fq,
                 expected="os.urandom(12) (single reaching definition, a direct CSPRNG call)", found=repr(nonce)[:200])
         R.check("C14-D1 nonce provenance", ok and nonce.args[0] == Const(12), f"{impl.name}.encrypt: nonce length", mod=fi.module,
